@@ -1,6 +1,7 @@
 (* C06 - DFA language comparisons, emptiness and finiteness decisions are exact. *)
 From Coq Require Import List Arith Bool.
 From AV Require Import Base.Util Spec.Lang Spec.FA Model.Decide Model.Product Proofs.Decide Proofs.Product Proofs.Finite.
+From AV Require Import Model.HK Proofs.HK.
 Import ListNotations.
 
 (* Each comparison returns a boolean (never an error) for valid operands over the same alphabet,
@@ -67,4 +68,30 @@ Example C06_example :
   valid_dfa A = true /\ valid_dfa B = true /\ same_syms A B = true /\
   issubset_m B A = Ok true /\ lt_m B A = Ok true /\ eq_m A B = Ok false /\ isdisjoint_m A B = Ok false /\
   isfinite_m B = Ok true /\ isfinite_m A = Ok false /\ isempty_m A = Ok false.
+Proof. vm_compute. repeat split. Qed.
+
+(* == as it is coded (Model/HK.v: Hopcroft-Karp over pairs (state, operand index) with the None sink, the
+   networkx union-find and the explicit stack, run on fuel |Q_A|+|Q_B|+3): for EVERY iteration order
+   `syms` of the input-symbol set and EVERY tie-break `tie` of the union-find among roots of equal weight,
+   the mirror model is the same function of the operands as the specification model eq_m - it returns
+   (never runs out of fuel, never an error) and its boolean is language equality. *)
+Theorem C06_hk_eq_faithful : forall A B tie syms, valid_dfa A = true -> valid_dfa B = true ->
+  (forall a, In a syms <-> In a (d_syms A)) ->
+  hk_eq_gen tie syms A B = eq_m A B /\
+  (same_syms A B = true ->
+   exists b, hk_eq_gen tie syms A B = Ok b /\ (b = true <-> L_dfa A =L L_dfa B)).
+Proof.
+  intros A B tie syms HA HB Hs. split.
+  - exact (hk_eq_gen_eq_m A B HA HB tie syms Hs).
+  - exact (hk_eq_gen_spec A B HA HB tie syms Hs).
+Qed.
+Print Assumptions C06_hk_eq_faithful.
+
+Example C06_hk_example :
+  let A := mkdfa [0;1] [0;1] [(0,[(0,1);(1,0)]);(1,[(0,0);(1,1)])] 0 [0] false in  (* even number of 0s *)
+  let B := mkdfa [0;1;2;3] [0;1] [(0,[(0,1);(1,2)]);(1,[(0,2);(1,1)]);(2,[(0,1);(1,0)]);(3,[])] 0 [0;2] true in
+  let C := mkdfa [0;1;2] [0;1] [(0,[(0,1)]);(1,[(0,2)]);(2,[])] 0 [0;2] true in     (* {e, 00} *)
+  valid_dfa A = true /\ valid_dfa B = true /\ valid_dfa C = true /\
+  hk_eq A B = Ok true /\ hk_eq B A = Ok true /\ hk_eq A C = Ok false /\ hk_eq C C = Ok true /\
+  hk_eq_gen (fun _ _ => false) [1;0] A B = Ok true /\ hk_eq_gen (fun _ _ => false) [1;0] C A = Ok false.
 Proof. vm_compute. repeat split. Qed.
